@@ -22,6 +22,9 @@ use std::sync::atomic::Ordering;
 use vouched_time::verif_shim::{set_backend, Backend, LockOutcome};
 use vouched_time::AtomicBaseTime;
 
+// plain sequential calls without the stepping backend, also made while unwinding (track traits)
+mod seq;
+
 const VOUCH_PARAMS: raffle::VouchingParameters = raffle::VouchingParameters::parse_or_die(
     "VOUCH-773ec2a0e62c20cd-f9e079b78e895091-fc1da7b1b77c57cb-594b9cce3091464a",
 );
@@ -1179,10 +1182,29 @@ pub struct AbtFamily;
 struct AbtExec {
     obj: Obj,
     sim: Option<Sim>,
+    /// the object and reference of the `seq` ops (`fam_abt/seq.rs`)
+    seq: seq::SeqState,
+}
+
+impl AbtExec {
+    fn fresh() -> AbtExec {
+        AbtExec { obj: Obj::new(), sim: None, seq: seq::SeqState::new() }
+    }
+}
+
+/// Only the plain sequential calls may run while the thread is unwinding (the stepping backend
+/// uses panics for control flow), and only those that cannot panic.
+impl crate::unwind::Probe for AbtExec {
+    fn unwind_safe(&self, w: &[&str]) -> bool {
+        seq::seq_safe(w)
+    }
 }
 
 impl Exec for AbtExec {
     fn step(&mut self, w: &[&str]) -> StepOut {
+        if let Some(so) = self.step_seq(w) {
+            return so;
+        }
         match w {
             ["trace", rest @ ..] => {
                 let Some((call, rest)) = parse_call(rest) else { return StepOut::bad() };
@@ -1537,7 +1559,7 @@ impl Family for AbtFamily {
     }
 
     fn new_exec(&self) -> Box<dyn Exec> {
-        Box::new(AbtExec { obj: Obj::new(), sim: None })
+        crate::unwind::UnwindExec::boxed(AbtExec::fresh)
     }
 
     fn enumerated(&self, thorough: bool) -> Vec<Vec<String>> {
@@ -1628,11 +1650,17 @@ impl Family for AbtFamily {
         for e in explores {
             cases.push(vec![e]);
         }
+        // (iv) plain sequential calls, every placement of `unwinding` (track traits)
+        cases.extend(seq::enumerated_seq());
         cases
     }
 
     fn gen_case(&self, rng: &mut Rng, _idx: u64, thorough: bool) -> Vec<String> {
         thread_local! { static OBJ: Obj = Obj::new(); }
+        if rng.chance(1, 8) {
+            let unwinding = rng.chance(2, 3);
+            return seq::random_seq(rng, unwinding);
+        }
         OBJ.with(|obj| {
             if rng.chance(1, 3) {
                 (0..rng.range(5, 30)).map(|_| random_trace(obj, rng)).collect()
